@@ -1,5 +1,5 @@
 PROP = dict(
-    coq=["Pipe/CrashHarness.vo"],
+    coq=["Pipe/CrashHarness.vo", "Pipe/PipeHarness.vo"],
     legs=[
         dict(driver="crash", quick=24, thorough=600, shard=12, noshrink=True,
              monitors=["nothing_stranded_after_restart (every remaining row is crawled and deleted in run 2)",
@@ -7,6 +7,13 @@ PROP = dict(
                        "refetched_after_restart (rows not yet pre-processed in run 1)",
                        "refetched_after_restart_even_if_preprocessed",
                        "warc_readable_up_to_last_complete_record"]),
+        # "finished implies captured" at the instant of the finish report (no kill needed): whole real crawls of sites with
+        # large bodies; at every fin.finished the WARC files on disk are read (monitor 10)
+        dict(driver="pipebodies", quick=10, thorough=400, shard=5, noshrink=True,
+             monitors=["finished_exactly_once", "finished_only_when_tree_done", "no_fetch_after_finish", "every_built_request_fetched_before_pass_end",
+                       "in_flight_le_tokens", "reactor_idle_at_quiescence", "wellformed_at_stage_boundaries", "seed_in_one_place_at_a_time",
+                       "attempts_le_max_retry_plus_1", "redirect_chain_and_asset_depth_bounds",
+                       "accepted_responses_in_warc_when_seed_finished"]),
     ],
     partial="Durability means 'survives process death' (SIGKILL; data handed to the OS): power loss and file-system behaviour are outside "
             "the model. SQLite's transactions and the WARC writer's record-at-a-time append are trusted (third party); the model takes a "
